@@ -1007,15 +1007,16 @@ FLAG_NAMES = ('include_parameter_estimates', 'include_robust_stderr', 'include_r
 
 def compile_tasks(tier, seed):
     n = 5 if tier == 'quick' else 7
-    stats = ['default'] if tier == 'quick' else ['default', 'alt', 'null', 'free', 'obs']
+    stats = ['default'] if tier == 'quick' else ['default', 'alt']
     t = []
     for ln in (1, 2, 3):
         for tup in itertools.permutations(range(n), ln):
             t.append(dict(part='c', seed=seed, tuple=list(tup), stats=stats))
-    if tier == 'quick':  # the two further statistics lists on the tuples of one and two models (pool of 7)
-        for ln in (1, 2):
-            for tup in itertools.permutations(range(7), ln):
-                t.append(dict(part='c', seed=seed, tuple=list(tup), stats=['null', 'free', 'obs'], flagset='formatted-x-short'))
+    # the three further lists of statistic rows x (formatted, short names) - the statistic rows do not depend on the three
+    # parameter switches: quick on the tuples of one and two models, thorough on all tuples (pool of 7)
+    for ln in ((1, 2) if tier == 'quick' else (1, 2, 3)):
+        for tup in itertools.permutations(range(7), ln):
+            t.append(dict(part='c', seed=seed, tuple=list(tup), stats=['null', 'free', 'obs'], flagset='formatted-x-short'))
     return t
 
 
